@@ -9,23 +9,16 @@ COMMON_TRUSTED_BASE = [
     "rustc / cargo code generation for the harness and the crates",
 ]
 
-PROPS = {
-    "C14": {
-        "coq_targets": ["Properties/C14.vo", "Extract/ExC14.vo"],
-        "driver": {"model": "c14_model.ml", "src": "drv_c14.ml", "exe": "c14_driver"},
-        "bin": "c14",
-        "profiles": ["dev"],
-        "rule": "streams: corpus; exhaustive (all 256 bytes x 8 sets; all strings <= 4 (quick) / 5 (thorough) over an 8-class byte alphabet x 3 sets for encode, <= 5 / 6 for decode; UTF-8 validation over 12 lead/continuation classes; all single add/remove 0..255); random (sets as add chains x byte strings <= 24; decode of encoder output; set-algebra op sequences incl. non-ASCII arguments). A case is non-trivial when its input string / op list is non-empty; distinct = distinct request lines among those.",
-        "trusted_base": [
-            "modelled, not verified: Rust's core::str::from_utf8 / String::from_utf8_lossy are identified with Base/Utf8.v (utf8_scan); the identification is cross-checked by the 'utf8' stream",
-            "Cow::Borrowed-of-input vs Cow::Borrowed-of-static is decided in the harness by pointer range",
-        ],
-        "assumptions": [
-            "byte strings are lists of N below 256; AsciiSet values are built by add/remove/union/complement from EMPTY (all values the public API can construct)",
-        ],
-        "known_classes": ["F-C14-1 (= F-C04-4): AsciiSet::add/remove of a byte >= 0x80 panics; the set algebra is stated for the 128 ASCII values as the property says, and C14_add_panics_iff characterises the panic exactly"],
-        "theorem_notes": {
-            "C14_split": "sufficient condition 'no % among the last two bytes of x' (implies that no escape is cut); exact characterisation of cut escapes not stated",
-        },
-    },
-}
+import glob
+import importlib.util
+import os
+
+PROPS = {}
+TEXT = {}
+_d = os.path.join(os.path.dirname(os.path.abspath(__file__)), "props_d")
+for _f in sorted(glob.glob(os.path.join(_d, "C*.py"))):
+    _spec = importlib.util.spec_from_file_location("props_d_" + os.path.basename(_f)[:-3], _f)
+    _m = importlib.util.module_from_spec(_spec)
+    _spec.loader.exec_module(_m)
+    PROPS[_m.ID] = _m.PROP
+    TEXT[_m.ID] = _m.TEXT
